@@ -67,11 +67,14 @@ def snapshot(R, repo):
 
 def reuse(R, repo) -> bool:
   ref = load().get(R.id)
-  if not ref or ref.get('error'):
+  if not isinstance(ref, dict) or not ref or ref.get('error'):
     return False
   units = dict(ref['units'])
+  table = load().get('__all_units__', {})
   for u in (R.consulted or ()):
-    units.setdefault(unit_key(u), None)
+    # a unit consulted only on the tree under test (e.g. a helper searched after an anchor was not recognised):
+    # compare it with its digest on the reference tree, recorded for every function of the analysed modules
+    units.setdefault(unit_key(u), table.get(unit_key(u)))
   cache = getattr(repo, '_digest_cache', None)
   if cache is None:
     cache = repo._digest_cache = {}
